@@ -135,11 +135,19 @@ def rows_of(rows):
 contract(LST + '._generate_bytecode_line_string', props=['C16'],
          params={'cls': 'opaque', 'line_bytes': 'bytearray', 'bytes_per_str': 'int'}, returns='list[str]',
          locals={'cur_str': 'str?', 'results': 'list[str]'},
-         ensures=['fresh(result)', '(len(result) == 0) == (len(line_bytes) == 0)'],
+         requires=['bytes_per_str >= 1'],
+         ensures=['fresh(result)', '(len(result) == 0) == (len(line_bytes) == 0)',
+                  # as many rows as the bytes need at bytes_per_str bytes a row: ceil(len / width)
+                  'len(result) * bytes_per_str >= len(line_bytes)',
+                  '(len(result) - 1) * bytes_per_str < len(line_bytes)'],
          modifies=[], allocates=True,
          loops={'0': dict(idx='i', modifies=['results[*]'],
                           inv=['i <= len(line_bytes)', 'fresh(results)',
-                               '(i == 0) == (len(results) == 0 and cur_str is None)'])})
+                               '(i == 0) == (len(results) == 0 and cur_str is None)',
+                               'implies(cur_str is None, i == len(results) * bytes_per_str)',
+                               'implies(cur_str is not None, len(cur_str) == 3 * (i - len(results) * bytes_per_str))',
+                               'implies(cur_str is not None, 0 < i - len(results) * bytes_per_str '
+                               'and i - len(results) * bytes_per_str < bytes_per_str)'])})
 
 contract(LST + '._generate_bytecode_line_string', name='abs:ListingPrettyPrinter._generate_bytecode_line_string',
          props=['C16'], assumed=True,
